@@ -1,7 +1,7 @@
 //verif:pkg .
 //verif:use fakes_mcp
 //verif:use fakes_client
-//verif:bound one tools/call over Streamable HTTP with an SSE answer whose handler emits k <= 2 (thorough 3) notifications (method in {n/a, n/b}, symbolic text, optional _meta with a symbolic token); one notification whose _meta is given as map[string]interface{}, as the library's Meta type or as map[string]string, with or without other fields, through SendCustomNotification or SendNotification before returning; every subset of {n/a, n/b} registered on the client; time.Now is an arbitrary non-decreasing clock; also the JSON-answer configuration (notifications dropped, result unaffected)
+//verif:bound one tools/call over Streamable HTTP with an SSE answer whose handler emits k <= 2 (thorough 3) notifications (method in {n/a, n/b}, symbolic text, optional _meta with a symbolic token); one notification whose _meta is given as map[string]interface{}, as the library's Meta type or as map[string]string, with or without other fields, through SendCustomNotification or SendNotification before returning; every subset of {n/a, n/b} registered on the client; time.Now is an arbitrary non-decreasing clock; also the JSON-answer configuration (notifications dropped, result unaffected); two notifications whose client handlers return errors (every subset): both delivered, result unaffected
 //verif:assume wall-clock timing and concurrent calls on one client are outside this kernel
 package mcp
 
@@ -296,5 +296,48 @@ func H_C10_helpers() {
 			vAssert("progress-message-intact", vAnd(f["message"] == message, data["message"] == message))
 		}
 	}
+	vReach("end")
+}
+
+// H_C10_handler_errors: the client's notification handlers may fail (every subset of two notifications' handlers
+// returns an error): each notification is still delivered once, in order, and the result still arrives.
+func H_C10_handler_errors() {
+	vRandConcrete(true)
+	srv := NewServer("srv", "1.0", WithPostSSEEnabled(true), WithGetSSEEnabled(false))
+	bridge := &c10Bridge{inner: &verifBridge{handler: srv.httpHandler}}
+	c, err := NewClient("http://h.example/mcp", Implementation{Name: "c", Version: "1"}, WithHTTPReqHandler(bridge), WithClientGetSSEEnabled(false))
+	if err != nil {
+		panic(err)
+	}
+	failMask := vChoice("failingHandlers", 4)
+	srv.RegisterTool(NewTool("t"), func(ctx context.Context, r *CallToolRequest) (*CallToolResult, error) {
+		sender, ok := GetNotificationSender(ctx)
+		if !ok {
+			return nil, context.Canceled
+		}
+		sender.SendCustomNotification("n/a", map[string]interface{}{"seq": float64(0)})
+		sender.SendCustomNotification("n/b", map[string]interface{}{"seq": float64(1)})
+		return NewTextResult("done"), nil
+	})
+	var seen []string
+	c.RegisterNotificationHandler("n/a", func(n *JSONRPCNotification) error {
+		seen = append(seen, n.Method)
+		if failMask&1 != 0 {
+			return context.Canceled
+		}
+		return nil
+	})
+	c.RegisterNotificationHandler("n/b", func(n *JSONRPCNotification) error {
+		seen = append(seen, n.Method)
+		if failMask&2 != 0 {
+			return context.Canceled
+		}
+		return nil
+	})
+	_, ierr := c.Initialize(context.Background(), &InitializeRequest{})
+	vAssume(ierr == nil)
+	res, cerr := c.CallTool(context.Background(), &CallToolRequest{Params: CallToolParams{Name: "t"}})
+	vAssert("result-arrives-whatever-the-handlers-return", vAnd(cerr == nil, res != nil))
+	vAssert("both-delivered-in-order", vAnd(len(seen) == 2, len(seen) == 2 && seen[0] == "n/a" && seen[1] == "n/b"))
 	vReach("end")
 }
